@@ -197,6 +197,10 @@ func Build(cfg Config, seed string, observe func(pre *ss.State, p int, ev *trace
 			cfg.SeedElectSpurious(1, []int{3}),
 			// first round: nextIndex[3] = 2 is refused by S3 (empty log) and backed off; second round ships x
 			cfg.SeedReplicateTo(1, []int{3}), cfg.SeedReplicateTo(1, []int{3})}
+	case "replicated-to-one":
+		// the leader has appended client 1's request and replicated it to server 2 only; the
+		// AppendEntries to everybody else are still in flight and nothing is committed yet
+		scripts = [][]ss.SeedStep{cfg.SeedElect(1), cfg.SeedAppendOnly(1, 1), cfg.SeedReplicateTo(1, []int{2})}
 	case "commit2-lagging-crash":
 		// ... and then the leader crash-stops (needs ExploreFail): the survivors must elect among themselves
 		scripts = [][]ss.SeedStep{cfg.SeedElect(1), cfg.SeedReplicate(1, 1, cfg.Others(1)), cfg.SeedClientRecv(1), cfg.SeedReplicate(1, 1, majority()),
